@@ -916,7 +916,15 @@ impl CallerEnv {
                         }
                     }
                 }
-                Slot::Suspend { op, fut, .. } => {
+                Slot::Suspend { op, obj, fut } => {
+                    // mark first: destroying the future drops the resumer, which resumes the queue
+                    self.w.with(|i| {
+                        for s in i.objs[obj].suspensions.iter_mut() {
+                            if s.op == op {
+                                s.fut_dropped = true;
+                            }
+                        }
+                    });
                     self.w.hist(|| format!("drop suspend future of #{}", op));
                     drop(fut);
                 }
@@ -1155,7 +1163,7 @@ impl CallerEnv {
                     w.inv(*id);
                     let f = scheduler::scheduler().suspend(q);
                     w.ret(*id);
-                    w.with(|i| i.objs[*o as usize].suspensions.push(SuspendSt { op: *id, resolved_at: 0, resumed_at: 0 }));
+                    w.with(|i| i.objs[*o as usize].suspensions.push(SuspendSt { op: *id, resolved_at: 0, resumed_at: 0, fut_dropped: false }));
                     self.slots[*slot as usize] = Some(Slot::Suspend { op: *id, obj: *o as usize, fut: Box::pin(f) });
                 }
             }
